@@ -2,7 +2,6 @@ CONSTANT NP = 8
 CONSTANT NC = 3
 CONSTANT NT = 3
 CONSTANT Kinds = {0, 1, 2, 3}
-CONSTANT GcMode = "any"
 CONSTANT Strict = TRUE
 SPECIFICATION TSpec
 INVARIANTS InfoIsRecount TagsAreRecount
